@@ -32,10 +32,11 @@ def run(ck):
     ck.rule = ('Kernel.get_kernel_matrix / RFM.kernel entries (float64 and float32) for all CPU kernels, exponents/norms in range, bandwidths 1e-2..1e3, '
                'transforms None/diagonal/full (symmetric M for the light kernel), random / coincident / far-apart / high-dimensional points: '
                '(a) selected entries certified against the Coq op-sequence model by `interval` lemmas; (b) all entries against the documented closed form '
-               '(mpmath); (c) symmetry, unit diagonal, range, row independence, PSD (numerical test only); (d) string aliases exhaustively. '
+               '(mpmath); (c) symmetry, unit diagonal, range, row independence; (d) string aliases exhaustively; (f) positive semi-definiteness of Gram matrices of 5-8 points '
+               '(random / clustered / duplicated) by exact LDL^T certificates re-checked inside Coq. '
                'non-trivial = transform present or exponent != 1; distinct by hash of inputs')
     ck.trusted += ['Coq 8.16.1 kernel', 'Interval 4.6.1 (`interval`)', 'real-number axioms of the standard library', 'mpmath closed forms (50 digits)']
-    ck.assumptions += ['tolerances: float64 1e-9 (light kernel 2e-6 * (sqrt u)^q scale), float32 2e-5', 'positive semi-definiteness is tested numerically, not proved']
+    ck.assumptions += ['tolerances: float64 1e-9 (light kernel 2e-6 * (sqrt u)^q scale), float32 2e-5', 'positive semi-definiteness: proved for all inputs for the product kernel with exponent 1 (C05_product_laplace_q1_is_psd); for the other kernels certified per Gram matrix (exact certificate checked in Coq, tolerance 1e-6 + grid 2^-41 n), the general Schoenberg statement is not proved']
     ck.check_theorems()
     from harness import kernelops
     kernelops.check_translation(ck)
@@ -190,6 +191,63 @@ def run(ck):
                                  f'{Ksmall[ri, b]!r} on {desc}',
                                  dict(desc, x=X[r].tolist(), z=Z[b].tolist(), mat=mat.tolist(), got=float(Kbig[r, b]), want=want, row=r),
                                  key=json.dumps(dict(site='big-x', kernel=kn)))
+    # (f) positive semi-definiteness, certified inside Coq: Gram matrices of 5-8 points (random, clustered, duplicated), every kernel with
+    #     0 < q <= p <= 2; exact integer LDL^T certificate of (G rounded to 2^-40) + tol*I re-checked by vm_compute (psd_cert_okb); theorem
+    #     C05_psd_certificate_is_sound turns it into  v^T G v >= -(tol + n 2^-41) |v|^2  for every real vector v.
+    from harness import psdcert
+    pcases = []; pmeta = {}
+    for j in range(ck.n(25, 100)):
+        kn = kinds[j % 5]
+        n = int(rng.integers(5, 9)); d = int(rng.choice([1, 2, 3, 6]))
+        L = float(rng.choice([0.3, 1.0, 4.0]))
+        q = [1.0, 0.5, 2.0, 1.5, 0.8][(j // 5) % 5]
+        p = 2.0
+        if kn == 'lpq':
+            p, q = [(1.0, 1.0), (1.5, 1.0), (2.0, 2.0), (2.0, 0.6), (1.5, 1.5), (1.0, 0.5)][(j // 5) % 6]
+        cmix = [0.0, 0.25][j % 2]; power = [1, 2, 3][j % 3]
+        X = rng.standard_normal((n, d))
+        kind = ['random', 'clustered', 'duplicate'][(j // 5) % 3]
+        if kind == 'clustered':
+            X[1] = X[0] + 1e-3 * rng.standard_normal(d); X[3] = X[2] + 1e-2 * rng.standard_normal(d)
+        if kind == 'duplicate':
+            X[-1] = X[0]
+        tk = ['none', 'diag', 'full'][j % 3]
+        if tk == 'none':
+            mat = None
+        elif tk == 'diag':
+            mat = np.abs(rng.standard_normal(d)) + 0.1
+        else:
+            A = rng.standard_normal((d, d)) / math.sqrt(d)
+            mat = A @ A.T if kn == 'l2_light' else A
+        Xt = torch.tensor(X); mt = None if mat is None else torch.tensor(mat)
+        kobj = make_kernel(xr, kn, L, q, p, cmix, power)
+        with xr.quiet():
+            G = kobj.get_kernel_matrix(Xt, Xt, mt).double().numpy()
+        desc = dict(kind='psd', i=j, kernel=kn, n=n, d=d, L=L, p=p, q=q, transform=tk, points=kind, cmix=cmix, power=power, seed=ck.seed)
+        ck.case(dict(desc, X=X.tolist()[:2]), nontrivial=True); ck.count(f'psd certificate: {kn}'); ck.count(f'psd points: {kind}')
+        tol = 1e-6
+        if kn == 'l2_light':
+            # the diagonal of the memory-light Gram matrix is exp(-(rounding of ||x||^2-2x.x+||x||^2)^(q/2) / L^q), below 1 by up to (sqrt(u)|x|/L)^q
+            nrm = float(np.abs(X).max()) * (1.0 if mat is None else float(np.abs(mat).max()) ** 0.5 + 1)
+            tol = max(tol, 8 * (math.sqrt(2.0 ** -52) * nrm * math.sqrt(d) / L) ** min(1.0, q) * 4)
+        tol_int = int(math.ceil(tol * (1 << psdcert.GRID)))
+        if not np.all(np.isfinite(G)):
+            ck.violation(f'{kn}: Gram matrix has non-finite entries on {desc}', dict(desc), key=json.dumps(dict(site='psd', kernel=kn))); continue
+        Kint = psdcert.to_grid(G)
+        r = psdcert.ldl_cert(Kint, tol_int)
+        if r[0] == 'witness':
+            v = np.array(r[1]); val = float(v @ ((G + G.T) / 2) @ v)
+            ck.violation(f'{kn}: Gram matrix of {n} points is not positive semi-definite: v^T G v = {val:.3e} for the unit vector v = {[round(x, 4) for x in r[1]]} '
+                         f'(tolerance {tol:.1e}) on {desc}', dict(desc, X=X.tolist(), mat=None if mat is None else np.asarray(mat).tolist(), G=G.tolist(), v=r[1], value=val),
+                         key=json.dumps(dict(site='psd', kernel=kn)))
+            continue
+        cid = len(pcases)
+        pcases.append((cid, psdcert.coq_case(Kint, tol_int, r[1], r[2])))
+        pmeta[cid] = desc
+    pres = ck.run_bool_cases('psd', 'From Coq Require Import ZArith List Bool.\nRequire Import XV.Real.PsdCert.\nImport ListNotations.\n', pcases, shard=10, timeout=600)
+    badp = [pmeta[k] for k, v in pres.items() if v is not True]
+    ck.obligation(f'correspondence: {len(pcases)} Gram matrices returned by the code carry an exact LDL^T certificate accepted by psd_cert_okb inside Coq '
+                  '(=> quadratic form >= -(tol + n 2^-41)|v|^2 for every real v, theorem C05_psd_certificate_is_sound)', 'correspondence', not badp, f'first failures: {badp[:3]}')
     res = ck.run_lemma_files('kern', kreal.RHEADER, lemmas, shard=4, timeout=900)
     bad = [lmeta[k] for k, v in res.items() if not v]
     ck.obligation(f'correspondence: {len(lemmas)} kernel matrix entries within tolerance of the Coq op-sequence model (interval-certified)', 'correspondence',
